@@ -281,7 +281,7 @@ def mem_behaviours(ctx, cfg, timeout=1800):
     return info, out
 
 
-def mem_check(ctx, vh, prop):
+def mem_check(ctx, vh, prop, validate=True):
     """The memory::State part of C40 / C41: MC AfcMem + SCHED replay + history validation."""
     r = ctx.tlc("MC_AfcMem", "MC_AfcMem.cfg", timeout=2400, cache=True)
     ctx.require_actions(r, MEM_ACTIONS)
@@ -294,7 +294,7 @@ def mem_check(ctx, vh, prop):
     res = replay(ctx, vh, "mem", beh, tag="mem", opts={"only": prop, "trace": trace,
                                                         "trace_max": 100000 if ctx.thorough else 500})
     ctx.absorb(res)
-    nev = validate_history(ctx, prop, trace, beh, tag="trace-mem")
+    nev = validate_history(ctx, prop, trace, beh, tag="trace-mem") if validate else 0
     ctx.cov.setdefault("schedule_graphs", {})["MC_AfcMem_g.cfg"] = {
         "constants": cfg_constants("MC_AfcMem_g.cfg"), "states": info["states"], "transitions": info["transitions"],
         "cover_paths": total, "replayed": len(beh), "steps_executed": sum(x.get("steps", 0) for x in res),
